@@ -25,8 +25,8 @@ def run_job(kind, key):
         return dict(job=key, records=recs, paths=npaths)
     if kind == 'sites':
         recs = []
-        for rel, qual, line, ok, why in gc.call_site_obligations():
-            recs.append(dict(name=f'{PROP}/{rel}::{qual}/label-data-flow@{line}', kind='call-site', verdict='discharged' if ok else 'failed', backend='pyvc-structural',
+        for rel, qual, line, verdict, why in gc.call_site_obligations():
+            recs.append(dict(name=f'{PROP}/{rel}::{qual}/label-data-flow@{line}', kind='call-site', verdict=verdict, backend='pyvc-structural',
                              ms=0, inputs=None, detail=why or None, witness=dict(site=f'{rel}:{line}', function=qual)))
         return dict(job=key, records=recs)
     raise CheckerError(kind)
@@ -100,4 +100,4 @@ def main(tier='quick', seed=0):
     from props import c14
     # the guess depends on its arguments alone: no module-level state in depccg/grammar/__init__.py (ast frame scan)
     records.extend(c14.purity_scan(PROP, rels=('depccg/grammar/__init__.py',), imports=False))
-    return finish_with(PROP, tier, seed, t0, records, errors, extra, assumptions, ['search_real.py', 'pyx_real.py', 'guess_real.py'])
+    return finish_with(PROP, tier, seed, t0, records, errors, extra, assumptions, ['search_real.py', 'pyx_real.py', 'guess_real.py', 'printers_real.py'])
